@@ -353,6 +353,7 @@ func clusterCase(h *harness.H, c int) {
 	h.Count("cluster_client_writes", writes)
 	h.Count("cluster_client_writes_unacknowledged", unacked)
 	h.Count("cluster_quiescent_checkpoints", len(t.Checkpoints))
+	h.Count("cluster_multi_op_transactions", t.MultiOpTxs)
 	h.Count("cluster_node_key_comparisons", ck.nChecked)
 	h.Count("cluster_stale_node_keys", ck.nStale)
 	if spec.Restart {
